@@ -111,12 +111,16 @@ class Order(Harness):
 def harnesses(tier):
     hs = []
     q = tier == "quick"
-    for h in ["all", "any", "count", "count_unique", "first", "last", "nth", "min", "max", "mode", "mean", "median", "quantile", "std", "var", "sum"]:
-        kinds = [k for k in KINDS[h] if k in NUMBA_KINDS]
-        for k in (kinds[:1] if q else kinds):
-            hs.append(OnOff(h, k, 2 if q else 3))
+    allh = ["all", "any", "count", "count_unique", "first", "last", "nth", "min", "max", "mode", "mean", "median", "quantile", "std", "var", "sum"]
     if q:
-        hs += [OnOff("min", "D", 2), OnOff("first", "i", 2), OnOff("max", "b", 2), OnOff("mode", "D", 2)]
+        # one representative per kernel family (generic_numba with each default/nrequired, nth, mode, count_unique, quantile)
+        for h, k in (("any", "f"), ("count", "f"), ("count_unique", "f"), ("nth", "f"), ("min", "f"), ("mode", "f"), ("mean", "f"),
+                     ("quantile", "f"), ("std", "f"), ("sum", "f"), ("min", "D"), ("first", "i"), ("max", "b")):
+            hs.append(OnOff(h, k, 2))
+    else:
+        for h in allh:
+            for k in [k for k in KINDS[h] if k in NUMBA_KINDS]:
+                hs.append(OnOff(h, k, 3))
     hs.append(Order(2))
     if not q: hs.append(Order(3))
     return hs
